@@ -99,9 +99,24 @@ func vCorruptExt(kind string) []byte {
 }
 
 func (w *vWorld) craftedRoleCert(cn string, ext []byte) *x509.Certificate {
+	return w.craftedRoleCertAt(cn, ext, time.Now().Add(-time.Minute), time.Now().Add(time.Hour))
+}
+
+// agedRoleCert: the certificate the issuing endpoint would have minted for these netblocks `age` ago with a year to live
+func (w *vWorld) agedRoleCert(cn string, blocks []net.IPNet, age time.Duration) *x509.Certificate {
+	fresh := w.roleCert(cn, blocks)
+	for _, e := range fresh.Extensions {
+		if e.Id.Equal(vOidIPDelegation) {
+			return w.craftedRoleCertAt(cn, e.Value, time.Now().Add(-age), time.Now().Add(365*24*time.Hour-age))
+		}
+	}
+	panic("no address extension in a role certificate")
+}
+
+func (w *vWorld) craftedRoleCertAt(cn string, ext []byte, notBefore, notAfter time.Time) *x509.Certificate {
 	serial, _ := rand.Int(rand.Reader, big.NewInt(1<<62))
-	tmpl := &x509.Certificate{SerialNumber: serial, Subject: pkix.Name{CommonName: cn}, NotBefore: time.Now().Add(-time.Minute),
-		NotAfter: time.Now().Add(time.Hour), KeyUsage: x509.KeyUsageDigitalSignature, ExtKeyUsage: []x509.ExtKeyUsage{x509.ExtKeyUsageClientAuth},
+	tmpl := &x509.Certificate{SerialNumber: serial, Subject: pkix.Name{CommonName: cn}, NotBefore: notBefore,
+		NotAfter: notAfter, KeyUsage: x509.KeyUsageDigitalSignature, ExtKeyUsage: []x509.ExtKeyUsage{x509.ExtKeyUsageClientAuth},
 		BasicConstraintsValid: true, ExtraExtensions: []pkix.Extension{{Id: vOidIPDelegation, Value: ext}}}
 	der, err := x509.CreateCertificate(rand.Reader, tmpl, w.roleCACert(), &vUserEC.PublicKey, w.st.Signer)
 	vMust(err)
